@@ -15,7 +15,7 @@
 
    Go partiality made explicit: a send on a closed channel sets [panicked] (the process dies:
    no step is enabled afterwards); a blocking operation is a step that is not enabled ([None]). *)
-From Coq Require Import List Arith ZArith Lia Bool.
+From Coq Require Import List Arith ZArith NArith Lia Bool.
 From L4.gen Require Import Shape.
 Import ListNotations.
 Close Scope Z_scope.
@@ -25,10 +25,10 @@ Definition addr := nat.
 Definition cid := nat.
 
 (* a datagram: source address, identity (arrival number given by the environment), byte length *)
-Record pkt := { src : addr; pid : nat; size : nat }.
+Record pkt := { src : addr; pid : nat; size : N }.
 
 Definition pkt_eqb (p q : pkt) : bool :=
-  Nat.eqb (src p) (src q) && Nat.eqb (pid p) (pid q) && Nat.eqb (size p) (size q).
+  if Nat.eqb (pid p) (pid q) then if Nat.eqb (src p) (src q) then N.eqb (size p) (size q) else false else false.
 
 (* ---- configuration read from the source ---- *)
 
@@ -91,7 +91,7 @@ Record conn := {
   readq : list pkt;            (* readCh contents *)
   rclosed : bool;              (* readCh closed *)
   sclosed : bool;              (* pc.closed closed *)
-  last : option (pkt * nat);   (* lastPacket and the number of its bytes already served *)
+  last : option (pkt * N);     (* lastPacket and the number of its bytes already served *)
   cphase : phase               (* handler running / program counter inside Close / finished *)
 }.
 
@@ -104,7 +104,7 @@ Inductive ev :=
 | ERoute (p : pkt) (c : cid)              (* loop put p into c's readCh *)
 | EDrop (p : pkt) (c : cid)               (* loop dropped p because c had signalled closure *)
 | EForget (a : addr) (c : cid) (hit : bool) (* loop processed a close notification; hit: an entry was removed *)
-| ERead (c : cid) (p : pkt) (fresh : bool) (off len : nat) (* Read returned bytes [off, off+len) of p; fresh: p was taken from readCh by this call *)
+| ERead (c : cid) (p : pkt) (fresh : bool) (off len : N) (* Read returned bytes [off, off+len) of p; fresh: p was taken from readCh by this call *)
 | EEof (c : cid)                          (* Read notified the loop and returned io.EOF *)
 | EDeadline (c : cid)                     (* Read returned os.ErrDeadlineExceeded *)
 | EWrite (c : cid) (w : nat) (a : addr)   (* Write sent payload w to address a *)
@@ -157,7 +157,7 @@ Definition with_conn_note (s : state) (c : cid) (k : conn) (e : list ev) : state
 
 Definition set_readq (k : conn) (q : list pkt) : conn :=
   {| caddr := caddr k; readq := q; rclosed := rclosed k; sclosed := sclosed k; last := last k; cphase := cphase k |}.
-Definition set_last (k : conn) (q : list pkt) (l : option (pkt * nat)) : conn :=
+Definition set_last (k : conn) (q : list pkt) (l : option (pkt * N)) : conn :=
   {| caddr := caddr k; readq := q; rclosed := rclosed k; sclosed := sclosed k; last := l; cphase := cphase k |}.
 Definition set_phase (k : conn) (ph : phase) : conn :=
   {| caddr := caddr k; readq := readq k; rclosed := rclosed k; sclosed := sclosed k; last := last k; cphase := ph |}.
@@ -189,7 +189,7 @@ Inductive step :=
 | LoopRecv                    (* the select takes packets: error => return, else look up / create *)
 | LoopSend                    (* `conn.readCh <- &pkt` completes (or panics) *)
 | LoopDrop                    (* guarded send only: the `<-conn.closed` case is taken *)
-| ConnRead (c : cid) (n : nat) (* Read(b) with len(b) = n returns data *)
+| ConnRead (c : cid) (n : N)   (* Read(b) with len(b) = n returns data *)
 | ConnEof (c : cid)           (* Read sees the closed channel / closed signal: notify, io.EOF *)
 | ConnIdle (c : cid)          (* Read's idle timer fires: notify, io.EOF *)
 | ConnDeadline (c : cid)      (* Read returns os.ErrDeadlineExceeded *)
@@ -287,15 +287,15 @@ Definition exec (g : cfg) (s : state) (t : step) : option state :=
       | Some k =>
           match last k with
           | Some (p, off) =>
-              let take := Nat.min n (size p - off) in
-              Some (with_conn s c (set_last k (readq k) (if off + take <? size p then Some (p, off + take) else None))
+              let take := N.min n (size p - off) in
+              Some (with_conn s c (set_last k (readq k) (if (off + take <? size p)%N then Some (p, (off + take)%N) else None))
                               [ERead c p false off take])
           | None =>
               match readq k with
               | p :: q =>
-                  let take := Nat.min n (size p) in
-                  Some (with_conn s c (set_last k q (if take <? size p then Some (p, take) else None))
-                                  [ERead c p true 0 take])
+                  let take := N.min n (size p) in
+                  Some (with_conn s c (set_last k q (if (take <? size p)%N then Some (p, take) else None))
+                                  [ERead c p true 0%N take])
               | [] => None
               end
           end
@@ -412,8 +412,9 @@ Definition ended (c : cid) (tr : list ev) : bool :=
    [own_ok], [order_ok] and [fresh_ok]); corr/C09Corr.v evaluates them on the event logs recorded
    from the real servePacket. The unobservable events (ERoute, EDrop, EForget) are not used. *)
 
-Definition addr_of (tr : list ev) (c : cid) : option addr :=
-  match find (fun x => Nat.eqb (fst x) c) (news tr) with Some x => Some (snd x) | None => None end.
+Definition addr_in (nw : list (cid * addr)) (c : cid) : option addr :=
+  match find (fun x => Nat.eqb (fst x) c) nw with Some x => Some (snd x) | None => None end.
+Definition addr_of (tr : list ev) (c : cid) : option addr := addr_in (news tr) c.
 
 Fixpoint subseqb (l1 l2 : list pkt) : bool :=
   match l1, l2 with
@@ -423,11 +424,13 @@ Fixpoint subseqb (l1 l2 : list pkt) : bool :=
   end.
 
 (* ownership: an association only reads datagrams from its own address and only writes to it *)
-Definition own_ok (tr : list ev) : bool :=
-  forallb (fun e => match e with
-    | ERead c p _ _ _ => match addr_of tr c with Some a => Nat.eqb (src p) a | None => false end
-    | EWrite c _ a => match addr_of tr c with Some a' => Nat.eqb a a' | None => false end
-    | _ => true end) tr.
+Definition own_ev (nw : list (cid * addr)) (e : ev) : bool :=
+  match e with
+  | ERead c p _ _ _ => match addr_in nw c with Some a => Nat.eqb (src p) a | None => false end
+  | EWrite c _ a => match addr_in nw c with Some a' => Nat.eqb a a' | None => false end
+  | _ => true
+  end.
+Definition own_ok (tr : list ev) : bool := let nw := news tr in forallb (own_ev nw) tr.
 
 (* order: what an association takes is a subsequence of the arrivals from its address *)
 Definition order_ok (tr : list ev) : bool :=
@@ -467,43 +470,50 @@ Definition grouped_ok (tr : list ev) : bool :=
           (addrs_of tr).
 
 (* causality: an association exists before it does anything, a datagram arrives before it is read *)
-Fixpoint causal_go (pre : list ev) (tr : list ev) : bool :=
+Fixpoint causal_go (cs : list cid) (ps : list pkt) (tr : list ev) : bool :=
   match tr with
   | [] => true
   | e :: r =>
-      (match e with
-       | ERead c p _ _ _ => existsb (fun x => Nat.eqb (fst x) c) (news pre) && existsb (pkt_eqb p) (arrivals pre)
-       | EEof c | EDeadline c | ERet c | EWrite c _ _ => existsb (fun x => Nat.eqb (fst x) c) (news pre)
-       | ENew c _ => negb (existsb (fun x => Nat.eqb (fst x) c) (news pre))
-       | _ => true
-       end) && causal_go (pre ++ [e]) r
+      match e with
+      | ERead c p _ _ _ => nat_in c cs && existsb (pkt_eqb p) ps && causal_go cs ps r
+      | EEof c | EDeadline c | ERet c | EWrite c _ _ => nat_in c cs && causal_go cs ps r
+      | ENew c _ => negb (nat_in c cs) && causal_go (c :: cs) ps r
+      | EArr p => causal_go cs (p :: ps) r
+      | _ => causal_go cs ps r
+      end
   end.
-Definition causal_ok (tr : list ev) : bool := causal_go [] tr.
+Definition causal_ok (tr : list ev) : bool := causal_go [] [] tr.
 
 (* byte ranges: a datagram is served from offset 0 in consecutive pieces; a new datagram is only
    begun when the previous one is exhausted (or Close has released it) *)
-Fixpoint chunk_lookup (c : cid) (st : list (cid * (option (pkt * nat) * bool))) : option (pkt * nat) * bool :=
+Definition chunk_st := list (cid * (option (pkt * N) * bool)).
+Fixpoint chunk_lookup (c : cid) (st : chunk_st) : option (pkt * N) * bool :=
   match st with
   | [] => (None, false)
   | (c', v) :: r => if Nat.eqb c' c then v else chunk_lookup c r
   end.
-Fixpoint chunks_go (st : list (cid * (option (pkt * nat) * bool))) (tr : list ev) : bool :=
+Fixpoint chunk_set (c : cid) (v : option (pkt * N) * bool) (st : chunk_st) : chunk_st :=
+  match st with
+  | [] => [(c, v)]
+  | (c', v') :: r => if Nat.eqb c' c then (c, v) :: r else (c', v') :: chunk_set c v r
+  end.
+Fixpoint chunks_go (st : chunk_st) (tr : list ev) : bool :=
   match tr with
   | [] => true
   | e :: r =>
       match e with
       | ERead c p fresh off len =>
           let '(cur, ret) := chunk_lookup c st in
-          let nxt := if off + len <? size p then Some (p, off + len) else None in
+          let nxt := if (off + len <? size p)%N then Some (p, (off + len)%N) else None in
           if fresh then
-            Nat.eqb off 0 && (len <=? size p) && (match cur with None => true | Some _ => ret end)
-            && chunks_go ((c, (nxt, ret)) :: st) r
+            N.eqb off 0 && (len <=? size p)%N && (match cur with None => true | Some _ => ret end)
+            && chunks_go (chunk_set c (nxt, ret) st) r
           else
             match cur with
-            | Some (q, o) => pkt_eqb p q && Nat.eqb o off && (off + len <=? size p) && chunks_go ((c, (nxt, ret)) :: st) r
+            | Some (q, o) => pkt_eqb p q && N.eqb o off && (off + len <=? size p)%N && chunks_go (chunk_set c (nxt, ret) st) r
             | None => false
             end
-      | ERet c => let '(cur, _) := chunk_lookup c st in chunks_go ((c, (cur, true)) :: st) r
+      | ERet c => let '(cur, _) := chunk_lookup c st in chunks_go (chunk_set c (cur, true) st) r
       | _ => chunks_go st r
       end
   end.
@@ -511,17 +521,19 @@ Definition chunks_ok (tr : list ev) : bool := chunks_go [] tr.
 
 (* one live association per address: when an association is created for address a, every earlier
    association for a has seen EOF or has returned. Holds when a close notification identifies
-   the association; the code before the repair violates it (stale notification). *)
-Fixpoint fresh_go (pre : list ev) (tr : list ev) : bool :=
+   the association; the code before the repair violates it (stale notification).
+   nw: associations created so far, es: those that have seen EOF or returned *)
+Fixpoint fresh_go (nw : list (cid * addr)) (es : list cid) (tr : list ev) : bool :=
   match tr with
   | [] => true
   | e :: r =>
-      (match e with
-       | ENew _ a => forallb (fun x => negb (Nat.eqb (snd x) a) || ended (fst x) pre) (news pre)
-       | _ => true
-       end) && fresh_go (pre ++ [e]) r
+      match e with
+      | ENew c a => forallb (fun x => negb (Nat.eqb (snd x) a) || nat_in (fst x) es) nw && fresh_go ((c, a) :: nw) es r
+      | EEof c | ERet c => fresh_go nw (c :: es) r
+      | _ => fresh_go nw es r
+      end
   end.
-Definition fresh_ok (tr : list ev) : bool := fresh_go [] tr.
+Definition fresh_ok (tr : list ev) : bool := fresh_go [] [] tr.
 
 Definition accepts (g : cfg) (tr : list ev) : bool :=
   own_ok tr && order_ok tr && nodup_ok tr && grouped_ok tr && causal_ok tr && chunks_ok tr &&
@@ -548,7 +560,7 @@ Fixpoint loop_quiesce (g : cfg) (fuel : nat) (s : state) : state :=
 Fixpoint feed (g : cfg) (n i : nat) (s : state) (taken : nat) : nat :=
   match n with
   | O => taken
-  | S m => match exec g s (SockRecv {| src := 0; pid := i; size := 48 |}) with
+  | S m => match exec g s (SockRecv {| src := 0; pid := i; size := 48%N |}) with
            | Some s' => feed g m (S i) (loop_quiesce g 4 s') (S taken)
            | None => taken
            end
